@@ -22,7 +22,7 @@ ASSUMPTIONS = [
 ]
 MONITORS = ("independent walk + lstat/readlink/inode of the workspace; audit-hook recorder proving zero filesystem mutations in "
             "workspace and cache during the second checkout; byte snapshot of the cache; link record checked through get_unused_links")
-REQUIRED_COUNTERS = ["priors_linked_into_another_store", "workspace_path_spelled_non_canonically", "priors_with_interrupted_copy_leftover", "dir_removed_between_checkouts", "priors_with_foreign_hardlinks", "sequences", "second_checkouts_audited", "relinks_checked", "files_link_type_checked", "cache_snapshots_compared",
+REQUIRED_COUNTERS = ["priors_with_dangling_symlink", "priors_linked_into_another_store", "workspace_path_spelled_non_canonically", "priors_with_interrupted_copy_leftover", "dir_removed_between_checkouts", "priors_with_foreign_hardlinks", "sequences", "second_checkouts_audited", "relinks_checked", "files_link_type_checked", "cache_snapshots_compared",
                      "link_records_checked", "pair/copy->hardlink", "pair/hardlink->symlink", "pair/symlink->copy", "pair/copy->symlink",
                      "pair/hardlink->copy", "pair/symlink->hardlink", "store/local", "store/base", "single_file_cases"]
 
@@ -125,6 +125,13 @@ def run_shard(ctx):
                         foreign += 1
                 if foreign:
                     res.count("priors_with_foreign_hardlinks")
+            # a dangling symbolic link somewhere in the prior workspace (its target was removed): just another path that is not in the target
+            dangling = False
+            if not single and os.path.isdir(ws) and rng.random() < 0.06:
+                lv = rng.choice(sorted({k[:-1] for k in prior_files if os.path.isdir(os.path.join(ws, *k[:-1]))} | {()}))
+                os.symlink("/nonexistent/verif-target", os.path.join(ws, *lv, "dangling-link"))
+                dangling = True
+                res.count("priors_with_dangling_symlink")
             # the leftover of an interrupted copying checkout: a partial file under the temporary name the copy primitive uses
             if not single and os.path.isdir(ws) and rng.random() < 0.12:
                 from dvc_objects.fs.utils import tmp_fname
@@ -135,7 +142,7 @@ def run_shard(ctx):
                     f.write(b"partial copy")
                 prior_files[(*lv, nm)] = b"partial copy"
                 res.count("priors_with_interrupted_copy_leftover")
-            cfg = {"ws_spelling": spelling, "store": cls, "existing": existing, "configured": configured, "state": use_state, "single": single,
+            cfg = {"dangling_symlink_in_prior": dangling, "ws_spelling": spelling, "store": cls, "existing": existing, "configured": configured, "state": use_state, "single": single,
                    "target": sorted("/".join(k) for k in T), "prior": sorted("/".join(k) for k in prior_files), "ext4": case % 9 == 4, "foreign_hardlinks": foreign}
             res.evaluated()
             res.count("sequences")
@@ -150,6 +157,9 @@ def run_shard(ctx):
 
             def check_bytes(when):
                 got = walk_files(ws)
+                if dangling:
+                    got = {k_: v_ for k_, v_ in got.items() if not (k_[-1:] == ("dangling-link",) and v_ is None)} if not any(
+                        os.path.lexists(os.path.join(dp_, "dangling-link")) for dp_, _dn, _fn in os.walk(ws)) else {**got, ("<dangling-link-still-there>",): b""}
                 if got != T:
                     missing = sorted(k for k in T if k not in got)
                     extra = sorted(k for k in got if k not in T)
@@ -170,7 +180,7 @@ def run_shard(ctx):
                     return
             else:
                 old = None
-                if rng.random() < 0.3 and os.path.lexists(ws):
+                if rng.random() < 0.3 and os.path.lexists(ws) and not dangling:
                     from dvc_data.hashfile.build import build
 
                     _s0, _m0, old = build(odb, ws, fs, "md5", dry_run=True)
